@@ -873,6 +873,14 @@ func (s *session) startReadAndHandle() {
 		}
 		err = s.socket.ReadMessage(ctx.input)
 		if (err != nil && ctx.GetBodyCodec() == codec.NilCodecID) || !s.goonRead() {
+			if ctx.callCmd != nil {
+				// the frame is a reply that bindReply has bound to its call (holding
+				// the call's lock): complete the call before giving up reading
+				if err != nil {
+					ctx.stat = statBadMessage.Copy(err)
+				}
+				ctx.handleReply()
+			}
 			s.peer.putContext(ctx, false)
 			return
 		}
